@@ -140,6 +140,10 @@ C03_Tick(mon, r) ==
 C03_Expire(mon, r) ==    \* Hold Timer Expired is sent exactly when the hold time runs out, then close and Idle
    (\E k \in 1..Len(r.out) : r.out[k].type = "NOTIFICATION" /\ r.out[k].code = 4) =>
       (r.cls \in TimerEv /\ HoldDue(mon, r) /\ IsErr(r, 4, 0))
+\* ... and conversely: when a timer ends a session (by C03.nodrop that is the hold time running out), the peer is told so:
+\* NOTIFICATION Hold Timer Expired on the connection of the session, close, Idle
+C03_Expired(mon, r) ==
+   (r.cls \in TimerEv /\ r.pst \in Session /\ r.st \notin Session /\ Single(r)) => IsErr(r, 4, 0)
 C03_NoDrop(mon, r) ==    \* time alone never ends a session before the hold time has run out
    (r.cls \in TimerEv \cup {"TICK"} /\ r.pst \in Session /\ r.st \notin Session) => HoldDue(mon, r)
 C03_HoldZero(mon, r) ==  \* H = 0: no periodic keepalives, silence never ends the session
@@ -298,6 +302,7 @@ Check(mon, r) ==
    /\ Chk("C03", r, "C03.tick", C03_Tick(mon, r), <<>>)
    /\ Chk("C03", r, "C03.expire", C03_Expire(mon, r), <<>>)
    /\ Chk("C03", r, "C03.nodrop", C03_NoDrop(mon, r), <<>>)
+   /\ Chk("C03", r, "C03.expired", C03_Expired(mon, r), OutTypes(r))
    /\ Chk("C03", r, "C03.holdzero", C03_HoldZero(mon, r), <<>>)
    /\ Chk("C03", r, "C03.kaontime", C03_KaOnTime(mon, r), <<>>)
    /\ Chk("C12", r, "C12.one", C12_One(r), <<r.plive, r.live>>)
